@@ -40,6 +40,12 @@ func corpus() [][]string {
 		{"tp store wrapped", "tp init none", "tp compute new 5 -", "tp get -", "tp del -", "tp compute new 6 -", "tp reopen", "tp get -"},
 		{"ts store fmt", "ts get 1 -", "ts has 1 -", "ts set 1 10 -", "ts get 1 -", "ts del 1 -", "ts get 1 -", "ts get 1 kv1", "ts iter - fwd 0 kv1"},
 		{"ts set 65535 1 -", "ts set 1 18446744073709551615 -", "ts get 65535 -", "ts has 65535 -", "ts del 65535 -", "ts get 1 -", "ts del 1 -"},
+		// variable-length key codec: the encoding of key 1 ([01]) is a prefix of the encodings of 256..511 ([01 xx]);
+		// Delete / Has / Get / Set of the short key must not touch or see the long ones, and vice versa
+		{"ts keys var", "ts set 1 10 -", "ts set 256 20 -", "ts set 257 30 -", "ts set 2 40 -", "ts has 1 -", "ts get 1 -", "ts del 1 -", "ts iter - fwd 0 -",
+			"ts has 1 -", "ts get 256 -", "ts has 257 -", "ts set 1 11 -", "ts del 256 -", "ts get 1 -", "ts has 256 -", "ts iter 01 fwd 0 -", "ts iterk 01 bwd 0 -"},
+		{"ts keys var", "ts codec scratch", "ts set 256 20 -", "ts has 1 -", "ts get 1 -", "ts del 1 -", "ts get 256 -", "ts del 1 kv1", "ts set 1 5 encv", "ts iter - fwd 0 -",
+			"ts rawset 0001 0000000000000007", "ts iter - fwd 0 -", "ts get 0 -", "ts set 0 1 -", "ts delp 00 -", "ts iter - bwd 0 -"},
 	}
 }
 
@@ -98,6 +104,29 @@ func exhaustiveTS() [][]string {
 		{},
 	}
 	var out [][]string
+	// variable-length keys: every point operation on the short key, on a long key it is a prefix of, and on absent ones,
+	// with every single fault, over stores that hold the short key only / the long ones only / both
+	for _, st := range [][]string{
+		{"ts set 1 10 -", "ts set 256 20 -", "ts set 257 30 -", "ts set 2 40 -"},
+		{"ts set 256 20 -", "ts set 511 30 -"},
+		{"ts set 1 10 -", "ts set 2 40 -"},
+		{"ts set 0 5 -", "ts set 1 10 -", "ts rawset 0001 0000000000000007", "ts rawset - 0000000000000008"},
+	} {
+		for _, op := range []string{"get 1", "get 256", "get 258", "get 0", "has 1", "has 256", "has 258", "has 2", "set 1 11", "set 256 21", "set 258 99", "del 1", "del 256", "del 258", "del 0"} {
+			for _, ft := range []string{"-", "kv1", "enck", "dec@0"} {
+				c := []string{"ts keys var"}
+				c = append(c, st...)
+				c = append(c, "ts "+op+" "+ft, "ts iter - fwd 0 -", "ts has 1 -", "ts has 256 -")
+				out = append(out, c)
+			}
+		}
+		for _, it := range []string{"iter - fwd 0 -", "iter 01 fwd 0 -", "iter 01 bwd 2 -", "iterk 01 fwd 0 -", "iterk - bwd 0 dec@1", "iter - fwd 0 dec@2", "delp 01 -", "delp 01 kv1", "delp 0100 -"} {
+			c := []string{"ts keys var"}
+			c = append(c, st...)
+			c = append(c, "ts "+it, "ts iter - fwd 0 -")
+			out = append(out, c)
+		}
+	}
 	for _, st := range stores {
 		for _, op := range []string{"get 1", "get 2", "get 9", "get 65535", "has 1", "has 9", "set 1 11", "set 9 99", "set 9 18446744073709551615", "del 1", "del 9"} {
 			for _, ft := range []string{"-", "kv1", "enck", "encv", "dec@0", "dec@1", "kv1,enck", "encv,kv1"} {
@@ -237,6 +266,10 @@ func genTS(rng *hx.Rng) []string {
 	}
 	if rng.Chance(2, 5) {
 		ops = append(ops, "ts store "+hx.Pick(rng, []string{"wrapped", "fmt"}))
+	}
+	if rng.Chance(2, 5) {
+		// keys 1, 2 are then prefixes of 256, 257 / 513; rawKeys 01 and 0100 are typed keys, 0001ff and 0002 do not decode
+		ops = append(ops, "ts keys var")
 	}
 	n := rng.Range(8, 24)
 	for i := 0; i < n; i++ {
